@@ -219,40 +219,67 @@ def _render(tree):
         return ast.unparse(ast.fix_missing_locations(tree)) + "\n"
 
 
-def tree_candidates(tree):
-    out = []
-    first = []
-    for path, n in _paths(tree):
+def _size(n):
+    return sum(1 for _ in ast.walk(n))
+
+
+def tree_candidates(tree, max_edits=250):
+    """Lazily yield candidate texts, biggest steps first.
+
+    Stage 1 - hoists (a statement / expression on its own): cheap, no copy of the tree, smallest text first.
+    Stage 2 - edits (replace a subtree by pass / x / _, or delete it): each costs a deep copy of the whole tree,
+    so they are generated one at a time, largest replaced subtree first, and capped per round - reducing a
+    3000-character class body must not cost minutes before the first candidate is even tried."""
+    nodes = list(_paths(tree))
+    seen = set()
+    shoists, ehoists = [], []
+    for path, n in nodes:
         try:
             if isinstance(n, ast.stmt):
-                first.append(ast.Module([n], []))
-                if not isinstance(n, ast.Pass):
-                    out.append(_set(tree, path, ast.Pass()))
-            elif isinstance(n, ast.expr):
-                if not isinstance(n, ast.Starred):
-                    out.append(ast.Module([ast.Expr(n)], []))
-                if not (isinstance(n, ast.Name) and n.id == "x"):
-                    out.append(_set(tree, path, ast.Name("x", getattr(n, "ctx", ast.Load()))))
-            elif isinstance(n, ast.pattern):
-                if not (isinstance(n, ast.MatchAs) and n.pattern is None and n.name is None):
-                    out.append(_set(tree, path, ast.MatchAs(None, None)))
-            out.append(_set(tree, path, None, delete=True))
+                shoists.append(_render(ast.Module([n], [])))
+            elif isinstance(n, ast.expr) and not isinstance(n, ast.Starred):
+                ehoists.append(_render(ast.Module([ast.Expr(n)], [])))
         except Exception:
             continue
-    res, seen = [], set()
-    for group in (first, out):  # statement hoists first: few candidates, biggest steps
-        texts = []
-        for t in group:
+    for group in (shoists, ehoists):  # statement hoists first: few candidates, biggest steps
+        for s in sorted(set(group), key=len):
+            if s not in seen:
+                seen.add(s)
+                yield s
+    sized = []
+    for path, n in nodes:
+        try:
+            sized.append((_size(n), path, n))
+        except Exception:
+            continue
+    sized.sort(key=lambda t: -t[0])
+    edits = 0
+    for _, path, n in sized:
+        if edits >= max_edits:
+            break
+        cands = []
+        try:
+            if isinstance(n, ast.stmt):
+                if not isinstance(n, ast.Pass):
+                    cands.append(lambda: _set(tree, path, ast.Pass()))
+            elif isinstance(n, ast.expr):
+                if not (isinstance(n, ast.Name) and n.id == "x"):
+                    cands.append(lambda: _set(tree, path, ast.Name("x", getattr(n, "ctx", ast.Load()))))
+            elif isinstance(n, ast.pattern):
+                if not (isinstance(n, ast.MatchAs) and n.pattern is None and n.name is None):
+                    cands.append(lambda: _set(tree, path, ast.MatchAs(None, None)))
+            cands.append(lambda: _set(tree, path, None, delete=True))
+        except Exception:
+            continue
+        for mk in cands:
             try:
-                s = _render(t)
+                s = _render(mk())
             except Exception:
                 continue
             if s not in seen:
                 seen.add(s)
-                texts.append(s)
-        texts.sort(key=len)
-        res.extend(texts)
-    return res
+                edits += 1
+                yield s
 
 
 def reduce_tree(text, still, budget=400):
